@@ -1142,10 +1142,13 @@ func (x Expr) FirstFound(data any) (any, bool) {
 					}
 				}
 			default:
-				if v, has = reflectGetWildOne(tv); has {
-					if int(fi) == len(x)-1 { // last one
+				if int(fi) == len(x)-1 { // last one
+					if v, has = reflectGetWildOne(tv); has {
 						return v, true
 					}
+					continue
+				}
+				for _, v = range reflectGetWild(tv) {
 					switch v.(type) {
 					case nil, bool, string, float64, float32, gen.Bool, gen.Float, gen.String,
 						int, uint, int8, int16, int32, int64, uint8, uint16, uint32, uint64, gen.Int:
